@@ -63,6 +63,34 @@ pub fn sources() -> Vec<Src> {
         p.push(None, kind.stmt("far", 1));
         v.push(Src { name: format!("pair-inside-limit-{}", kind.name()), text: print_plain(&p), class: if kind == RefKind::Call { "valid-stack" } else { "valid" } });
     }
+    // the same pairs in programs that do not fit in memory from their origin, the references lying
+    // beyond the last word that fits: (a) origin xFFF0 (room for 16 words), (b) default origin
+    // behind 53,300 reserved words (room for 53,248)
+    for kind in REF_KINDS {
+        let b = kind.bits();
+        let pad = (1u32 << (b - 1)) - 2;
+        for (place, bad) in [("origin-xFFF0", true), ("origin-xFFF0", false), ("behind-53300-words", true), ("behind-53300-words", false)] {
+            let mut p = Program::default();
+            if place == "origin-xFFF0" {
+                p.items.push(Item::Orig(Lit::hex(0xFFF0)));
+                p.push(None, Stmt::Named(0x25, "halt"));
+            } else {
+                p.push(None, Stmt::Named(0x25, "halt"));
+                p.push(None, Stmt::Blkw(Lit::dec(53300)));
+            }
+            p.push(Some("far"), Stmt::Named(0x25, "halt"));
+            p.push(None, Stmt::Blkw(Lit::hex(if bad { pad } else { pad - 1 } as u16)));
+            p.push(None, kind.stmt("far", 1));
+            p.push(None, kind.stmt("far", 1));
+            let class = match (bad, kind == RefKind::Call) {
+                (true, true) => "emission-error-stack",
+                (true, false) => "emission-error",
+                (false, true) => "valid-stack",
+                (false, false) => "valid-near-top-of-memory",
+            };
+            v.push(Src { name: format!("pair-{}-limit-{}-{}", if bad { "straddling" } else { "inside" }, place, kind.name()), text: print_plain(&p), class });
+        }
+    }
     // programs whose image ends around the top of user space and of memory: the assembler has no
     // opinion on where a program is loaded, so all of them assemble (loading may fail later)
     for (orig, n) in [(0xFD00u32, 0x2FEu32), (0xFD00, 0x2FF), (0xFD00, 0x300), (0xFDF0, 0x10), (0xFF00, 0xFD), (0xFF00, 0xFE), (0xFF00, 0xFF), (0xFF00, 0x100), (0xFFFE, 1), (0xFFFF, 0), (0xFFFF, 1), (0x0000, 0xFFFD), (0x0000, 0xFFFE), (0x0001, 0xFFFE)] {
@@ -207,7 +235,7 @@ pub fn run(ctx: &Ctx) -> i32 {
         ctx,
         acc,
         Level { category: "model_checking", bfs: None },
-        "exhaustive configuration enumeration against the real binary: every source of a 140-source corpus (valid seeds; lexer / parser / backpatch errors; for each of the 8 PC-relative kinds an out-of-range label reference one beyond the field limit, forwards and backwards, at every statement position 0..4, and the in-range neighbour; sources using push / pop / call / rets; programs ending around the top of user space and of memory) x feature setting {none, -f stack} x {check, compile, run}. Each run is classified success / diagnostic / crash; a crash is a violation; check success <=> compile success; compile success <=> run gets past assembling. Part B drives the real `lace watch`: every sequence of up to 2 (thorough 3) saves over 9 file contents (valid; valid with an in-range reference on the statement where another content has an out-of-range one; undefined label after labels were recorded; valid with the same label names elsewhere; using labels it does not define; lexer error; emission-only error), and after each save the verdict of the re-check must equal `lace check` on that content (an unobserved event is inconclusive). non-trivial = (source, flag) pairs on which the three commands agree + watch sequences whose every re-check agreed",
+        "exhaustive configuration enumeration against the real binary: every source of a 172-source corpus (valid seeds; lexer / parser / backpatch errors; for each of the 8 PC-relative kinds an out-of-range label reference one beyond the field limit, forwards and backwards, at every statement position 0..4, and the in-range neighbour; sources using push / pop / call / rets; programs ending around the top of user space and of memory; the straddling / inside pairs again in programs that do not fit in memory from their origin, with the references beyond the last word that fits) x feature setting {none, -f stack} x {check, compile, run}. Each run is classified success / diagnostic / crash; a crash is a violation; check success <=> compile success; compile success <=> run gets past assembling. Part B drives the real `lace watch`: every sequence of up to 2 (thorough 3) saves over 9 file contents (valid; valid with an in-range reference on the statement where another content has an out-of-range one; undefined label after labels were recorded; valid with the same label names elsewhere; using labels it does not define; lexer error; emission-only error), and after each save the verdict of the re-check must equal `lace check` on that content (an unobserved event is inconclusive). non-trivial = (source, flag) pairs on which the three commands agree + watch sequences whose every re-check agreed",
         true,
         &["all-accept", "all-reject", "emission-only-error-rejected-by-all"],
         &["`lace watch` is driven through the file system; inotify event timing is outside the claim: unobserved re-checks are counted as inconclusive"],
